@@ -469,19 +469,28 @@ def deep_use_cases(push):
     return out
 
 
-def wear_history(walks=65536, entries=255, probes=520):
-    """a long-lived thread: one module with many entry points generated again and again until just under `walks` entry-point walks have
+def wear_history(walks=65536, entries=255, probes=140):
+    """a long-lived thread: modules with many entry points generated again and again until just under `walks` entry-point walks have
     happened on the thread, then `probes` small shaders (entry -> helper -> binding) so that the walk with that number - and every counter
-    that wraps there - falls on a judged call"""
-    W = _base()
-    W["functions"].append({"name": "touch", "ret": True, "body": [{"k": "access", "g": "buf", "how": "load"}]})
-    for i in range(entries):
-        W["entries"].append({"name": "c%d" % i, "stage": "compute", "params": [], "wg": ["1"], "body": [{"k": "call", "f": "touch", "expr": True}] if i % 2 else [{"k": "access", "g": "buf", "how": "load"}]})
-    calls = max(1, (walks - probes // 2) // entries)
-    cases = [{"id": "wear-module", "family": "long-lived-thread", "S": W, "opts": opts(), "repeat": calls - 1}]
+    or stamp that wraps there - falls on a judged call. Each probe keeps its helpers at function positions no earlier call has used
+    (2k never-called functions in front of them): tables indexed by position that were never written for those positions."""
+    def wear_module(n):
+        W = _base()
+        W["functions"].append({"name": "touch", "ret": True, "body": [{"k": "access", "g": "buf", "how": "load"}]})
+        for i in range(n):
+            W["entries"].append({"name": "c%d" % i, "stage": "compute", "params": [], "wg": ["1"], "body": [{"k": "call", "f": "touch", "expr": True}] if i % 2 else [{"k": "access", "g": "buf", "how": "load"}]})
+        return W
+    target = walks - probes // 2
+    calls = target // entries
+    cases = [{"id": "wear-module", "family": "long-lived-thread", "S": wear_module(entries), "opts": opts(), "repeat": calls - 1}]
+    rest = target - calls * entries
+    if rest > 0:
+        cases.append({"id": "wear-module-rest", "family": "long-lived-thread", "S": wear_module(rest), "opts": opts()})
     for i in range(probes):
         P = _base()
         P["globals"].append({"name": "other", "space": "uniform", "group": "0", "binding": "1", "ty": VEC4})
+        for j in range(2 * i):
+            P["functions"].append({"name": "unused%d" % j, "ret": False, "body": []})
         P["functions"].append({"name": "leaf", "ret": True, "body": [{"k": "access", "g": "buf", "how": "load"}]})
         P["functions"].append({"name": "mid", "ret": True, "body": [{"k": "call", "f": "leaf", "expr": True}]})
         P["entries"].append({"name": "fs_main", "stage": "fragment", "params": [], "wg": [], "body": [{"k": "call", "f": ("mid", "leaf")[i % 2], "expr": True}]})
@@ -638,6 +647,14 @@ def growth_cases(quick):
         cases.append(("diamond-pure-l%d-ret" % l, diamond(l, True, pure=True)))
         cases.append(("diamond-pure-l%d-void" % l, diamond(l, False, pure=True)))
         cases.append(("diamond-pure1-l%d" % l, diamond(l, True, pure="one")))
+    # a push constant that only ONE small entry point reads, next to an entry point with a deep call graph that never reaches it
+    for l in [8, 16, 24, 32]:
+        for shape in ("diamond", "chain", "fanin"):
+            D = diamond(l, True) if shape == "diamond" else (chain(l, True) if shape == "chain" else fan_in(l * 4, True))
+            D["globals"].append({"name": "pc", "space": "push", "ty": VEC4})
+            D["entries"].append({"name": "fs_main", "stage": "fragment", "params": [], "wg": [], "body": [{"k": "access", "g": "pc", "how": "load"}]})
+            D["entries"].append({"name": "vs_main", "stage": "vertex", "params": [], "wg": [], "result": {"k": "builtin", "b": "position"}, "body": list(D["entries"][0]["body"])})
+            cases.append(("pc-apart-%s-l%d" % (shape, l), D))
     # the same diamonds and fans above SEVERAL variables (per-function result lists that are merged at every call site)
     for l in [4, 8, 16, 24, 32]:
         for n_g in (2, 3):
@@ -739,6 +756,8 @@ def push_cases(rng, n):
                 S["globals"].append({"name": "pc_unused", "space": "push", "ty": {"k": "vec", "n": 4, "s": "f32"}})
         acc = [{"k": "access", "g": "pc", "how": rng.choice(["load", "load", "addr"])}] if ty is not None else []
         # helper chain of depth 2: outer (touches no global) -> inner (reads pc)
+        if extra_binding:
+            S["functions"].append({"name": "all_bindings", "ret": False, "body": [{"k": "access", "g": "ub", "how": "load"}]})
         S["functions"].append({"name": "inner", "ret": rng.random() < 0.5, "body": list(acc)})
         S["functions"].append({"name": "outer", "ret": rng.random() < 0.5, "body": [{"k": "call", "f": "inner", "expr": True}]})
         for k, st in enumerate(stages):
@@ -751,9 +770,18 @@ def push_cases(rng, n):
             elif pat == "nested":
                 body = [wrap(rng, {"k": "call", "f": "outer", "expr": True}, rng.randint(0, 2))]
             if extra_binding and rng.random() < 0.5:
-                body.append({"k": "access", "g": "ub", "how": "load"})
+                # the bound resource after, or in front of, whatever reaches the push constant (directly or through a helper of its own)
+                ub = {"k": "access", "g": "ub", "how": "load"} if i % 2 else {"k": "call", "f": "all_bindings", "expr": False}
+                if i % 4 < 2:
+                    body.append(ub)
+                else:
+                    body.insert(0, ub)
             e = {"name": "e%d" % k, "stage": st, "params": [], "body": body, "wg": ["1"] if st == "compute" else []}
             S["entries"].append(e)
+        if extra_binding and ty is not None and i % 5 == 2 and S["entries"]:
+            st0 = S["entries"][-1]["stage"]
+            S["entries"].insert(0, {"name": "e_first", "stage": st0, "params": [], "wg": ["1"] if st0 == "compute" else [], "body": [{"k": "access", "g": "ub", "how": "load"}]})
+            S["entries"].append({"name": "e_last", "stage": st0, "params": [], "wg": ["1"] if st0 == "compute" else [], "body": [{"k": "call", "f": "inner", "expr": False}]})
         if i % 3 == 1:
             # variables without a binding declared in front of the push constant and used by OTHER stages than it
             # (tables indexed by declaration position)
